@@ -18,6 +18,7 @@ import (
 	"go/ast"
 	"go/token"
 	"regexp"
+	"strconv"
 	"strings"
 )
 
@@ -733,6 +734,13 @@ func semReach(rel, fn, scope string, pick func(r canonReturn) bool, only []strin
 				hits = append(hits, r)
 			}
 		}
+		if len(hits) == 0 { // the return may have moved into a same-file helper: its path condition continues the caller's
+			for _, r := range v.innerReturns {
+				if pick(r) {
+					hits = append(hits, r)
+				}
+			}
+		}
 		if len(hits) != 1 {
 			panic(bail{fmt.Sprintf("%s: expected exactly one matching return in %s, found %d", rel, fn, len(hits))})
 		}
@@ -872,6 +880,11 @@ func semAssignReach(rel, fn string, markers, only []string, leanName, params str
 				hits = append(hits, a)
 			}
 		}
+		for _, r := range v.allReturns { // `x = f(…)` may have become `return f(…)` of a helper
+			if containsAll("="+strings.Join(r.results, ","), markers) {
+				hits = append(hits, canonAssign{pc: r.pc})
+			}
+		}
 		if len(hits) != 1 {
 			panic(bail{fmt.Sprintf("%s: expected exactly one assignment matching %v in %s, found %d", rel, markers, fn, len(hits))})
 		}
@@ -891,5 +904,37 @@ func semAssignReach(rel, fn string, markers, only []string, leanName, params str
 			body = "(" + strings.Join(parts, " && ") + ")"
 		}
 		return fmt.Sprintf("/-- generated from %s func %s: the condition under which the assignment matching %v is executed -/\ndef %s %s : Bool :=\n  %s\n", rel, fn, markers, leanName, params, body)
+	}
+}
+
+// semAssignFact: `pattern` (a regular expression) is matched against the canonical form `lhs,…=rhs,…` of every assignment of
+// fn and its helpers; exactly `total` assignments must match, and the first capture group of the nth (in execution order) is
+// emitted — as a Nat (asNat) or as a string.  Canonical names do not depend on what the locals are called.
+func semAssignFact(rel, fn, pattern string, nth, total int, asNat bool, leanName string) func() string {
+	return func() string {
+		v := canonOf(rel, fn)
+		re := regexp.MustCompile(pattern)
+		var caps []string
+		for _, a := range v.assigns {
+			var rhs []string
+			for _, r := range a.rhs {
+				rhs = append(rhs, norm(src(r)))
+			}
+			if m := re.FindStringSubmatch(strings.Join(a.lhs, ",") + "=" + strings.Join(rhs, ",")); m != nil {
+				caps = append(caps, m[1])
+			}
+		}
+		if len(caps) != total {
+			panic(bail{fmt.Sprintf("%s: `%s` matches %d canonical assignments of %s (with its helpers), expected %d", rel, pattern, len(caps), fn, total)})
+		}
+		doc := fmt.Sprintf("/-- generated from %s func %s (and its helpers): match %d of %d of `%s` over the canonical assignments -/\n", rel, fn, nth+1, total, pattern)
+		if asNat {
+			n, err := strconv.Atoi(caps[nth])
+			if err != nil {
+				panic(bail{fmt.Sprintf("%s: capture %q of `%s` is not a number", rel, caps[nth], pattern)})
+			}
+			return doc + fmt.Sprintf("def %s : Nat := %d\n", leanName, n)
+		}
+		return doc + fmt.Sprintf("def %s : String := %s\n", leanName, strconv.Quote(caps[nth]))
 	}
 }
